@@ -1,2 +1,134 @@
+/* num <op> ... : the internal numeric kernels (non-static symbols of libvna.a) */
 #include "vh.h"
-int vh_num(void) { return -1; }
+#include "vnacommon_internal.h"
+
+static double complex *parse_cvec(int start, int count)
+{
+    double complex *v = malloc(sizeof(double complex) * (count + 1));
+    for (int i = 0; i < count; ++i)
+	v[i] = vh_parse_double(vh_tok[start + 2 * i]) + I * vh_parse_double(vh_tok[start + 2 * i + 1]);
+    return v;
+}
+
+static double *parse_dvec(int start, int count)
+{
+    double *v = malloc(sizeof(double) * (count + 1));
+    for (int i = 0; i < count; ++i)
+	v[i] = vh_parse_double(vh_tok[start + i]);
+    return v;
+}
+
+extern double complex _vnacal_rfi(const double *xp, double complex *yp, int n, int m, int *segment, double x);
+
+int vh_num(void)
+{
+    const char *op;
+
+    if (vh_ntok < 2)
+	return -1;
+    op = vh_tok[1];
+    if (strcmp(op, "lu") == 0) {		/* num lu n A */
+	int n = (int)vh_parse_long(vh_tok[2]);
+	double complex *a, d;
+	int *ri;
+	if (n < 0 || n > 64 || vh_ntok != 3 + 2 * n * n) return -1;
+	a = parse_cvec(3, n * n);
+	ri = malloc(sizeof(int) * (n + 1));
+	LIB(d = _vnacommon_lu(a, ri, n));
+	vh_out("ok");
+	vh_out_complex(d);
+	vh_out(" P");
+	for (int i = 0; i < n; ++i) vh_out(" %d", ri[i]);
+	vh_out(" A");
+	for (int i = 0; i < n * n; ++i) vh_out_complex(a[i]);
+	free(a); free(ri);
+	return 0;
+    }
+    if (strcmp(op, "mldivide") == 0 || strcmp(op, "mrdivide") == 0) {	/* num mldivide m n A B */
+	int m = (int)vh_parse_long(vh_tok[2]), n = (int)vh_parse_long(vh_tok[3]);
+	bool left = op[1] == 'l';
+	int an = left ? m : n;
+	double complex *a, *b, *x, d;
+	if (m < 0 || n < 0 || m > 64 || n > 64 || vh_ntok != 4 + 2 * an * an + 2 * m * n) return -1;
+	a = parse_cvec(4, an * an);
+	b = parse_cvec(4 + 2 * an * an, m * n);
+	x = malloc(sizeof(double complex) * (m * n + 1));
+	if (left) LIB(d = _vnacommon_mldivide(x, a, b, m, n));
+	else LIB(d = _vnacommon_mrdivide(x, b, a, m, n));
+	vh_out("ok");
+	vh_out_complex(d);
+	vh_out(" X");
+	for (int i = 0; i < m * n; ++i) vh_out_complex(x[i]);
+	free(a); free(b); free(x);
+	return 0;
+    }
+    if (strcmp(op, "minverse") == 0) {
+	int n = (int)vh_parse_long(vh_tok[2]);
+	double complex *a, *x, d;
+	if (n < 0 || n > 64 || vh_ntok != 3 + 2 * n * n) return -1;
+	a = parse_cvec(3, n * n);
+	x = malloc(sizeof(double complex) * (n * n + 1));
+	LIB(d = _vnacommon_minverse(x, a, n));
+	vh_out("ok");
+	vh_out_complex(d);
+	vh_out(" X");
+	for (int i = 0; i < n * n; ++i) vh_out_complex(x[i]);
+	free(a); free(x);
+	return 0;
+    }
+    if (strcmp(op, "qrsolve") == 0) {		/* num qrsolve m n o A B : A m x n, B m x o, X n x o */
+	int m = (int)vh_parse_long(vh_tok[2]), n = (int)vh_parse_long(vh_tok[3]), o = (int)vh_parse_long(vh_tok[4]);
+	double complex *a, *b, *x;
+	int rank;
+	if (m < 0 || n < 0 || o < 0 || m > 64 || n > 64 || vh_ntok != 5 + 2 * m * n + 2 * m * o) return -1;
+	a = parse_cvec(5, m * n);
+	b = parse_cvec(5 + 2 * m * n, m * o);
+	x = malloc(sizeof(double complex) * (n * o + 1));
+	LIB(rank = _vnacommon_qrsolve(x, a, b, m, n, o));
+	vh_out("ok %d X", rank);
+	for (int i = 0; i < n * o; ++i) vh_out_complex(x[i]);
+	free(a); free(b); free(x);
+	return 0;
+    }
+    if (strcmp(op, "rfi") == 0) {		/* num rfi n m seg x <n x's> <n complex y's> */
+	int n = (int)vh_parse_long(vh_tok[2]), m = (int)vh_parse_long(vh_tok[3]);
+	int seg = (int)vh_parse_long(vh_tok[4]);
+	double x = vh_parse_double(vh_tok[5]);
+	double *xs;
+	double complex *ys, r;
+	if (n < 1 || n > 256 || vh_ntok != 6 + n + 2 * n) return -1;
+	xs = parse_dvec(6, n);
+	ys = parse_cvec(6 + n, n);
+	LIB(r = _vnacal_rfi(xs, ys, n, m, &seg, x));
+	vh_out("ok");
+	vh_out_complex(r);
+	vh_out(" seg=%d", seg);
+	free(xs); free(ys);
+	return 0;
+    }
+    if (strcmp(op, "spline") == 0) {		/* num spline n <n+1 x's> <n+1 y's> <k queries> */
+	int n = (int)vh_parse_long(vh_tok[2]);
+	int k = vh_ntok - 3 - 2 * (n + 1);
+	double *xs, *ys, (*cf)[3];
+	int rc;
+	if (n < 1 || n > 256 || k < 0) return -1;
+	xs = parse_dvec(3, n + 1);
+	ys = parse_dvec(3 + n + 1, n + 1);
+	cf = calloc(n + 1, sizeof(double [3]));
+	errno = 0;
+	LIB(rc = _vnacommon_spline_calc(n, xs, ys, cf));
+	if (rc != 0) {
+	    vh_out("fail %s", vh_errclass(errno));
+	} else {
+	    vh_out("ok");
+	    for (int i = 0; i < k; ++i) {
+		double r;
+		LIB(r = _vnacommon_spline_eval(n, xs, ys, (const double (*)[3])cf, vh_parse_double(vh_tok[3 + 2 * (n + 1) + i])));
+		vh_out_double(r);
+	    }
+	}
+	free(xs); free(ys); free(cf);
+	return 0;
+    }
+    return -1;
+}
